@@ -195,6 +195,30 @@ CHECKS = {
              'Reader._parse_statement.',
         note='Trusted: TLC, harness.dslgen. Hash-colliding strings are out of reach (SipHash).',
         design='6/C08'),
+    'C06': dict(
+        technique='TLC as executable relational semantics (RelAlg.tla: 3-valued logic, joins, grouping, ordering with tie groups, '
+                  'sets, references) validating result sets of the real DSL -> alchemy parser -> SQLite and DuckDB for an enumerated '
+                  'statement stream (TraceReads.tla); TLC exhaustive over read/mutate/restart histories (Reads.tla requirement, '
+                  'FeedCacheImpl.tla as-is caches) replayed on real alchemy / lazy / monolite feeds with process restarts',
+        text='Every generated statement is built with the real DSL, parsed by the real alchemy parser and executed on two engines over '
+             'several table contents; TLC decides whether the returned rows are what the statement denotes (Accepts handles ties and '
+             'limits). Reader level: every history of reads, storage mutations, reads through another feed with equally named tables and '
+             'process restarts (same FORML_HOME) within the bound is replayed on real feeds and judged against storage-now.',
+        note='Trusted: TLC, harness.dslgen/relgen encodings. Engine-specific SQL corners the DSL leaves undefined are excluded in the '
+             'generator (E1-E14 in harness/relgen.py). TLC -coverage is unusable on RelAlg.tla (start-up cost); vacuity is guarded by '
+             'explicit counts.',
+        design='6/C06'),
+    'C14': dict(
+        technique='TLC exhaustive decision of hint safety over ALL databases within a bound (Hints.tla / HintsMC.tla over RelAlg.tla, '
+                  'FactorsImpl.tla as-is factorisation) + hints recorded from the real parser (generate_table override) validated by '
+                  'TraceHints.tla and enforced on SQLite against the hint-ignoring run',
+        text='Hints.tla defines ColumnsComplete, Scoped and Safe (Eval(stmt, db) = Eval(stmt, Restrict(db, H)) for every db of the '
+             'universe); HintsMC.tla enumerates statement families x all small databases for the transcribed factorisation; the hints '
+             'the real parser offers are recorded through the public generate_table extension point, judged by TLC and honoured on '
+             'SQLite (restricted table copies) to compare with the plain result.',
+        note='Trusted: TLC, RelAlg.tla, harness.relgen. Safety is decided exhaustively inside the small world A(x,y), B(x), C(x); wide '
+             'catalog statements are judged on sampled contents.',
+        design='6/C14'),
 }
 
 NOT_YET = {}
